@@ -436,10 +436,12 @@ impl FailSafe {
         root_ca: &[u8],
         buf: &mut [u8],
     ) -> Result<(), Error> {
+        // Once per fail-safe context, and - like the CSR - not any more after
+        // a NOC command was accepted
         self.check_state(
             session_mode,
             NocFlags::empty(),
-            NocFlags::ADD_ROOT_CERT_RECVD,
+            NocFlags::ADD_ROOT_CERT_RECVD | NocFlags::ADD_NOC_RECVD | NocFlags::UPDATE_NOC_RECVD,
             NocFlags::ADD_ROOT_CERT_RECVD,
         )?;
 
